@@ -174,6 +174,9 @@ func runC06(c *Ctx) {
 			c.Check("C06-R1", "candidates-are-UnspentOutputs", ap.Pos(), okSrc, "the eligible list is not built from Store.UnspentOutputs (which excludes leased outputs and outputs spent by unconfirmed transactions)")
 			// appended element is the candidate itself
 		}
+		// ... and Store.UnspentOutputs really carries those two exclusions in both of its passes (findEligibleOutputs has
+		// no lease / unconfirmed-spender filter of its own): the shared spendability-pass rule, from this property's side
+		checkSpendPasses(c, "C06-R1", false)
 		// confirms(): canonical form
 		if cf := walletFn(c, "C06-R1", "confirms"); cf != nil {
 			okForm := true
